@@ -35,9 +35,13 @@ type verifSched struct {
 	maxSubs int
 	lc      int
 	pauseYield bool
+	distinct   bool
 }
 
 func (s *verifSched) submit(tag string) *verifSub {
+	if s.distinct {
+		s.lc++ // every submission has its own length: no duplicates (used together with faults)
+	}
 	e := verifPending(tag, s.lc, 0, false)
 	f, src := s.l.addLeafToPool(context.Background(), e, false)
 	sub := &verifSub{tag: tag, e: e, f: f, src: src}
@@ -118,7 +122,10 @@ func VerifC02(n0, faults, actions, cacheLoss int) {
 	w.clockMode = 1
 	l, inst := w.bootstrap(n0)
 	ctx := context.Background()
-	s := &verifSched{w: w, l: l, actions: actions, maxSubs: 3, lc: 2}
+	s := &verifSched{w: w, l: l, actions: actions, maxSubs: 3, lc: 3, distinct: faults > 0 && cacheLoss == 0}
+	if !s.distinct {
+		s.lc = 2
+	}
 	w.onStep = s.hook
 	testingOnlyPauseSequencing = func() { w.yield("pause") }
 	s.submit("first")
